@@ -458,6 +458,43 @@ func (e *Exec) floatBinop(op token.Token, a, b *Term) Value {
 			return tb.Not(r)
 		}
 		return r
+	case token.LSS, token.LEQ, token.GTR, token.GEQ:
+		// ordered comparison with constant zero, exact on the bit pattern
+		x, flip := a, false
+		switch {
+		case zc(b):
+		case zc(a):
+			x, flip = b, true
+		default:
+			e.unsupported("ordered float comparison of two symbolic values")
+		}
+		if flip {
+			op = map[token.Token]token.Token{token.LSS: token.GTR, token.GTR: token.LSS, token.LEQ: token.GEQ, token.GEQ: token.LEQ}[op]
+		}
+		if x.Op == OpF32to64 {
+			x = x.Args[0]
+		}
+		w := x.W
+		sign := tb.Eq(tb.Extract(x, w-1, w-1), tb.Const(1, 1))
+		isZero := e.floatIsZero(x)
+		var expMask, mantMask uint64
+		if w == 32 {
+			expMask, mantMask = 0x7f800000, 0x007fffff
+		} else {
+			expMask, mantMask = 0x7ff0000000000000, 0x000fffffffffffff
+		}
+		isNaN := tb.And(tb.Eq(tb.BvAnd(x, tb.Const(w, expMask)), tb.Const(w, expMask)), tb.Ne(tb.BvAnd(x, tb.Const(w, mantMask)), tb.Const(w, 0)))
+		notNaN := tb.Not(isNaN)
+		switch op {
+		case token.GTR:
+			return tb.And(notNaN, tb.And(tb.Not(sign), tb.Not(isZero)))
+		case token.LSS:
+			return tb.And(notNaN, tb.And(sign, tb.Not(isZero)))
+		case token.GEQ:
+			return tb.And(notNaN, tb.Or(tb.Not(sign), isZero))
+		default:
+			return tb.And(notNaN, tb.Or(sign, isZero))
+		}
 	}
 	e.unsupported("float operation %s", op)
 	return nil
